@@ -8,7 +8,7 @@ import traceback
 from vlib import specgen as G, cosim, svsim, svselfcheck
 
 TR_KNOBS = {"widths": [1, 2, 3, 4, 5, 7, 8, 9, 16, 31, 32, 33, 63, 64], "avoid_const_ops": True, "p_freevar": 0.25, "p_tmp": 0.25, "p_const_struct": 0.35, "p_nested_slice": 0.3, "p_tmp_chain": 0.4, "p_vsl": 0.2, "p_lambda": 0.25, "p_for": 0.6, "p_ite_const": 0.4, "p_list2d": 0.4, "p_list_struct": 0.5, "p_cast": 0.25,
-            "p_for_mixed": 0.7, "p_tmp_loopname": 0.8, "p_lambda_part": 0.5, "p_shadow": 0.3}
+            "p_for_mixed": 0.7, "p_tmp_loopname": 0.8, "p_lambda_part": 0.5, "p_shadow": 0.3, "p_expr_bounds_blk": 0.3}
 
 
 def random_inputs(rng, cs, reset):
